@@ -452,3 +452,150 @@ package sstables
 //@           s.currentIndex == old(s.currentIndex) + 1
 //@   modifies s.currentIndex
 //@   safety on
+
+// ---------------------------------------------------------------------------------------------------
+// C03: the on-disk index (DiskIndexLoader). The index file is seen through its reader r:
+//   dxHas(r, off): some record starts at or after byte offset off;  dxAt(r, off): the offset that record starts at;
+//   dxKey/dxVal/dxSum(r, o): key content, data offset and checksum of the record that starts at o.
+// dxSorted(r): offsets and keys ascend together (the stream writer appends index entries in strictly ascending key order),
+// the file is smaller than 2^62 bytes (assumption: offsets are int64 in the readers below).
+
+//@ spec func dxHas(r Ref, off Int) Bool
+//@ spec func dxAt(r Ref, off Int) Int
+//@ spec func dxKey(r Ref, o Int) Bytes
+//@ spec func dxVal(r Ref, o Int) Int
+//@ spec func dxSum(r Ref, o Int) Int
+//@ spec func dxK(r Ref, off Int) Bytes = dxKey(r, dxAt(r, off))
+//@ spec func dxSorted(r Ref) Bool = 0 <= wrSize(r) && wrSize(r) <= 4611686018427387904 &&
+//@      (forall a, b :: 0 <= a && a <= b && dxHas(r, b) ==> dxHas(r, a) && dxAt(r, a) <= dxAt(r, b) && bcmp(dxKey(r, dxAt(r, a)), dxKey(r, dxAt(r, b))) <= 0) &&
+//@      (forall a :: 0 <= a && dxHas(r, a) ==> a <= dxAt(r, a) && dxAt(r, a) < wrSize(r)) &&
+//@      (forall a, b :: 0 <= a && a <= b && b <= dxAt(r, a) && dxHas(r, a) ==> dxHas(r, b) && dxAt(r, b) == dxAt(r, a)) &&
+//@      (forall a, b :: 0 <= a && 0 <= b && dxHas(r, a) && dxHas(r, b) && dxAt(r, a) < dxAt(r, b) ==> bcmp(dxKey(r, dxAt(r, a)), dxKey(r, dxAt(r, b))) < 0)
+
+// SeekNext of the protobuf index reader (mmap based), as the disk index uses it: trusted, exercised by the bounded driver
+// table_model. An EOF means that no record starts at or after the offset; the decoded message is the record found.
+//@ iface github.com/thomasjungblut/go-sstables/recordio/proto.ReadAtI.SeekNext
+//@   trusted
+//@   conformance table_model
+//@   ensures [finds-the-record-at-or-after] r2 == nil ==> dxHas(this, a1) && r0 == dxAt(this, a1)
+//@   ensures [decodes-it] r2 == nil ==> content(asType(*proto.IndexEntry, a0).Key) == dxKey(this, r0) &&
+//@           asType(*proto.IndexEntry, a0).ValueOffset == dxVal(this, r0) && asType(*proto.IndexEntry, a0).Checksum == dxSum(this, r0)
+//@   ensures [eof-only-at-the-end] errIs(r2, io.EOF) ==> !dxHas(this, a1)
+//@   ensures [end-is-an-error] !dxHas(this, a1) ==> r2 != nil
+//@   ensures [own-errors] r2 != skiplist.NotFound && r2 != skiplist.Done
+//@   modifies asType(*proto.IndexEntry, a0).*
+
+// what the offset cache holds is what the file holds
+//@ spec func dxCacheOK(s *DiskKeyIndex) Bool = forall o :: 0 <= o && mhas(s.offsetCache, o) ==> mget(s.offsetCache, o) != nil && dxHas(s.reader, o) &&
+//@      content(mget(s.offsetCache, o).Key) == dxKey(s.reader, dxAt(s.reader, o)) &&
+//@      mget(s.offsetCache, o).ValueOffset == dxVal(s.reader, dxAt(s.reader, o)) && mget(s.offsetCache, o).Checksum == dxSum(s.reader, dxAt(s.reader, o))
+
+//@ func (*DiskKeyIndex).findAt
+//@   props C03
+//@   replay table_model
+//@   requires dxCacheOK(s) && s.reader != nil
+//@   ensures [cache-stays-valid] dxCacheOK(s)
+//@   ensures [answers-the-record-at-or-after] r1 == nil ==> r0 != nil && dxHas(s.reader, off) && content(r0.Key) == dxKey(s.reader, dxAt(s.reader, off)) &&
+//@           r0.ValueOffset == dxVal(s.reader, dxAt(s.reader, off)) && r0.Checksum == dxSum(s.reader, dxAt(s.reader, off))
+//@   ensures [eof-only-at-the-end] errIs(r1, io.EOF) ==> !dxHas(s.reader, off)
+//@   ensures [end-is-an-error] !dxHas(s.reader, off) ==> r1 != nil
+//@   ensures [own-errors] r1 != skiplist.NotFound && r1 != skiplist.Done
+//@   modifies s.offsetCache[*]
+
+//@ func (*DiskKeyIndex).binarySearch
+//@   props C03
+//@   replay table_model
+//@   requires dxSorted(s.reader) && dxCacheOK(s) && s.reader != nil
+//@   ensures [cache-stays-valid] dxCacheOK(s)
+//@   ensures [position] r3 == nil ==> 0 <= r0 && r0 <= wrSize(s.reader)
+//@   ensures [before-are-smaller] r3 == nil ==> forall o :: 0 <= o && o < r0 && dxHas(s.reader, o) ==> bcmp(dxKey(s.reader, dxAt(s.reader, o)), content(target)) < 0
+//@   ensures [from-there-not-smaller] r3 == nil ==> forall o :: r0 <= o && dxHas(s.reader, o) ==> bcmp(dxKey(s.reader, dxAt(s.reader, o)), content(target)) >= 0
+//@   ensures [found-iff-equal] r3 == nil ==> (r2 <==> (dxHas(s.reader, r0) && bcmp(dxKey(s.reader, dxAt(s.reader, r0)), content(target)) == 0))
+//@   ensures [found-entry] r3 == nil && r2 ==> r1 != nil && r1.ValueOffset == dxVal(s.reader, dxAt(s.reader, r0)) && r1.Checksum == dxSum(s.reader, dxAt(s.reader, r0))
+//@   ensures [own-errors] r3 != skiplist.NotFound && r3 != skiplist.Done
+//@   loop 0
+//@     invariant 0 <= i && i <= j && j <= wrSize(s.reader) && n == wrSize(s.reader)
+//@     invariant dxCacheOK(s)
+//@     invariant forall o :: 0 <= o && o < i && dxHas(s.reader, o) ==> bcmp(dxKey(s.reader, dxAt(s.reader, o)), content(target)) < 0
+//@     invariant forall o :: j <= o && dxHas(s.reader, o) ==> bcmp(dxKey(s.reader, dxAt(s.reader, o)), content(target)) >= 0
+//@   modifies s.offsetCache[*]
+//@   safety on
+
+//@ func (*DiskKeyIndex).Contains
+//@   props C03
+//@   replay table_model
+//@   requires dxSorted(s.reader) && dxCacheOK(s) && s.reader != nil
+//@   ensures [cache-stays-valid] dxCacheOK(s)
+//@   ensures [no-false-negative] r1 == nil ==> forall o :: 0 <= o && dxHas(s.reader, o) && bcmp(dxKey(s.reader, dxAt(s.reader, o)), content(key)) == 0 ==> r0
+//@   exit [no-false-positive] r1 == nil && r0 ==> dxHas(s.reader, callres(binarySearch, 0, 0)) && bcmp(dxKey(s.reader, dxAt(s.reader, callres(binarySearch, 0, 0))), content(key)) == 0
+//@   ensures [own-errors] r1 != skiplist.NotFound && r1 != skiplist.Done
+//@   modifies s.offsetCache[*]
+
+//@ func (*DiskKeyIndex).Get
+//@   props C03
+//@   replay table_model
+//@   requires dxSorted(s.reader) && dxCacheOK(s) && s.reader != nil
+//@   ensures [cache-stays-valid] dxCacheOK(s)
+//@   ensures [found] forall o :: 0 <= o && dxHas(s.reader, o) && bcmp(dxKey(s.reader, dxAt(s.reader, o)), content(key)) == 0 ==>
+//@           r1 != skiplist.NotFound && (r1 == nil ==> r0.Offset == dxVal(s.reader, dxAt(s.reader, o)) && r0.Checksum == dxSum(s.reader, dxAt(s.reader, o)))
+//@   exit [value-comes-from-the-matching-record] r1 == nil ==> dxHas(s.reader, callres(binarySearch, 0, 0)) &&
+//@           bcmp(dxKey(s.reader, dxAt(s.reader, callres(binarySearch, 0, 0))), content(key)) == 0 &&
+//@           r0.Offset == dxVal(s.reader, dxAt(s.reader, callres(binarySearch, 0, 0))) && r0.Checksum == dxSum(s.reader, dxAt(s.reader, callres(binarySearch, 0, 0)))
+//@   ensures [not-found-means-absent] r1 == skiplist.NotFound ==> forall o :: 0 <= o && dxHas(s.reader, o) ==> bcmp(dxKey(s.reader, dxAt(s.reader, o)), content(key)) != 0
+//@   modifies s.offsetCache[*]
+
+// The iterators probe offsets currentOffset .. endOffset: each step delivers the record at or after the probe and continues
+// behind its start.
+//@ func (*DiskKeyIndex).newIterator
+//@   ensures r0 != nil && fresh(r0) && r0.reader == s.reader && r0.currentOffset == offset && r0.endOffset == endOffset && r0.entry != nil && fresh(r0.entry)
+//@   modifies nothing
+
+//@ func (*DiskKeyIndex).Iterator
+//@   props C03
+//@   requires s.reader != nil
+//@   exit [whole-index] r1 == nil && r0 != nil && asType(*DiskKeyIndexIterator, r0).reader == s.reader &&
+//@        asType(*DiskKeyIndexIterator, r0).currentOffset <= recordio.FileHeaderSizeBytes && asType(*DiskKeyIndexIterator, r0).endOffset == wrSize(s.reader)
+
+//@ func (*DiskKeyIndex).IteratorStartingAt
+//@   props C03
+//@   replay table_model
+//@   requires dxSorted(s.reader) && dxCacheOK(s) && s.reader != nil
+//@   ensures [cache-stays-valid] dxCacheOK(s)
+//@   exit [starts-at-first-not-smaller] r1 == nil ==> r0 != nil && asType(*DiskKeyIndexIterator, r0).reader == s.reader &&
+//@        asType(*DiskKeyIndexIterator, r0).endOffset == wrSize(s.reader) && 0 <= asType(*DiskKeyIndexIterator, r0).currentOffset &&
+//@        (forall o :: 0 <= o && dxHas(s.reader, o) ==>
+//@            (o >= asType(*DiskKeyIndexIterator, r0).currentOffset <==> bcmp(dxKey(s.reader, dxAt(s.reader, o)), content(key)) >= 0))
+//@   modifies s.offsetCache[*]
+
+//@ func (*DiskKeyIndex).IteratorBetween
+//@   props C03
+//@   replay table_model
+//@   requires dxSorted(s.reader) && dxCacheOK(s) && s.reader != nil
+//@   ensures [cache-stays-valid] dxCacheOK(s)
+//@   ensures [inverted-bounds-rejected] bcmp(content(keyLower), content(keyHigher)) > 0 ==> r1 != nil
+//@   exit [nothing-in-range-before-the-start] r1 == nil ==> r0 != nil && asType(*DiskKeyIndexIterator, r0).reader == s.reader &&
+//@        (asType(*DiskKeyIndexIterator, r0).currentOffset <= asType(*DiskKeyIndexIterator, r0).endOffset ==>
+//@         (forall o :: 0 <= o && o < asType(*DiskKeyIndexIterator, r0).currentOffset && dxHas(s.reader, o) ==>
+//@            bcmp(dxKey(s.reader, dxAt(s.reader, o)), content(keyLower)) < 0))
+//@   exit [probes-stay-in-range] r1 == nil ==>
+//@        (forall o :: asType(*DiskKeyIndexIterator, r0).currentOffset <= o && o <= asType(*DiskKeyIndexIterator, r0).endOffset && dxHas(s.reader, o) ==>
+//@            bcmp(content(keyLower), dxKey(s.reader, dxAt(s.reader, o))) <= 0 && bcmp(dxKey(s.reader, dxAt(s.reader, o)), content(keyHigher)) <= 0)
+//@   exit [range-is-not-cut-short] r1 == nil ==>
+//@        (forall o :: 0 <= o && dxHas(s.reader, o) && bcmp(dxKey(s.reader, dxAt(s.reader, o)), content(keyHigher)) <= 0 ==>
+//@            o <= asType(*DiskKeyIndexIterator, r0).endOffset ||
+//@            (dxHas(s.reader, asType(*DiskKeyIndexIterator, r0).endOffset) && dxAt(s.reader, asType(*DiskKeyIndexIterator, r0).endOffset) == dxAt(s.reader, o)))
+//@   modifies s.offsetCache[*]
+//@   safety on
+
+//@ func (*DiskKeyIndexIterator).Next
+//@   props C03 C18
+//@   replay table_model
+//@   requires s.reader != nil && s.entry != nil && dxSorted(s.reader)
+//@   ensures [done-past-the-end] old(s.currentOffset) > s.endOffset ==> r2 == skiplist.Done && s.currentOffset == old(s.currentOffset)
+//@   ensures [done-only-at-the-end] r2 == skiplist.Done ==> old(s.currentOffset) > s.endOffset || !dxHas(s.reader, old(s.currentOffset))
+//@   ensures [yields-the-record-at-or-after] r2 == nil ==> old(s.currentOffset) <= s.endOffset && dxHas(s.reader, old(s.currentOffset)) &&
+//@           content(r0) == dxKey(s.reader, dxAt(s.reader, old(s.currentOffset))) && r1.Offset == dxVal(s.reader, dxAt(s.reader, old(s.currentOffset))) &&
+//@           r1.Checksum == dxSum(s.reader, dxAt(s.reader, old(s.currentOffset))) && s.currentOffset == dxAt(s.reader, old(s.currentOffset)) + 1
+//@   ensures [end-is-never-an-error] !dxHas(s.reader, old(s.currentOffset)) ==> r2 != nil
+//@   modifies s.currentOffset, s.entry.*
+//@   safety on
